@@ -102,6 +102,23 @@ func (w *World) stamps(n int) []int64 {
 	return out
 }
 
+// nextValue: a stamp, or (one time in six) a value at the ends of the element type's range.
+func (w *World) nextValue(rng *rand.Rand, ty string) int64 {
+	if rng.Intn(6) == 0 {
+		ext := extremesFor(ty)
+		return ext[rng.Intn(len(ext))]
+	}
+	return w.NextStamp()
+}
+
+func (w *World) valuesFor(rng *rand.Rand, ty string, n int) []int64 {
+	out := make([]int64, n)
+	for i := range out {
+		out[i] = w.nextValue(rng, ty)
+	}
+	return out
+}
+
 // HistOpts configures the random history driver.
 type HistOpts struct {
 	Types     []string
@@ -190,7 +207,7 @@ func RandomHistory(w *World, rng *rand.Rand, o HistOpts) {
 				w.AppendSampleFloat(vi, oddFloats[rng.Intn(len(oddFloats))])
 				continue
 			}
-			w.Do(Op{K: "AppendSample", A: []int{vi, int(w.NextStamp())}})
+			w.Do(Op{K: "AppendSample", A: []int{vi, int(w.nextValue(rng, v.Ty()))}})
 		case "SetSample":
 			if isFloatTy(v.Ty()) && v.Len() > 0 && rng.Intn(3) == 0 {
 				w.signFlip(vi, rng.Intn(v.Len()), -1, 0)
@@ -200,7 +217,7 @@ func RandomHistory(w *World, rng *rand.Rand, o HistOpts) {
 			if rng.Intn(8) != 0 && v.Len() > 0 {
 				i = rng.Intn(v.Len())
 			}
-			w.Do(Op{K: "SetSample", A: []int{vi, i, int(w.NextStamp())}})
+			w.Do(Op{K: "SetSample", A: []int{vi, i, int(w.nextValue(rng, v.Ty()))}})
 		case "Sample":
 			i := rng.Intn(v.Len()+2) - 1
 			w.Do(Op{K: "Sample", A: []int{vi, i}})
@@ -223,7 +240,11 @@ func RandomHistory(w *World, rng *rand.Rand, o HistOpts) {
 			if o.CrossType {
 				t = BuiltinTypes[rng.Intn(len(BuiltinTypes))]
 			}
-			w.Do(Op{K: "Write", A: []int{vi}, Ty: t, In: w.stamps(n)})
+			in := w.stamps(n)
+			if !o.CrossType { // same element type on both sides: any value must come back unchanged
+				in = w.valuesFor(rng, t, n)
+			}
+			w.Do(Op{K: "Write", A: []int{vi}, Ty: t, In: in})
 		case "WriteStriped":
 			nch := v.Channels()
 			if rng.Intn(10) == 0 {
@@ -240,6 +261,9 @@ func RandomHistory(w *World, rng *rand.Rand, o HistOpts) {
 					continue
 				}
 				ins[c] = w.stamps(rng.Intn(v.Length() + 3))
+				if !o.CrossType {
+					ins[c] = w.valuesFor(rng, v.Ty(), len(ins[c]))
+				}
 			}
 			t := KindOf(v.Ty())
 			if o.CrossType {
@@ -293,7 +317,7 @@ func RandomHistory(w *World, rng *rand.Rand, o HistOpts) {
 			}
 			switch k {
 			case "ChanSet":
-				w.Do(Op{K: k, A: []int{vi, c, i, int(w.NextStamp())}})
+				w.Do(Op{K: k, A: []int{vi, c, i, int(w.nextValue(rng, v.Ty()))}})
 			case "ChanShape":
 				w.Do(Op{K: k, A: []int{vi, c}})
 			case "ChanIndex":
